@@ -1,4 +1,5 @@
 import MioModel.Lemmas.Net
+import MioModel.Props.C09
 /-! # C18 — Closed resources release their OS socket; stopped nodes release their threads
 
 The register of a resource (`Arc<Register>`: it owns the socket and deregisters it from the poll in
@@ -65,5 +66,25 @@ example : ∃ s, run {} [.connect 1, .pollRemote 0 false, .pending .disconnected
     .beginReceive 0 true, .endReceive, .finish, .listen, .pollLocal 0 [5] [], .acceptOne, .acceptOne,
     .pollRemote 2 false, .pending .disconnected, .beginReceive 0 false] = some s ∧
     openSockets s = [] ∧ s.dereg.map (·.1) = [0, 1, 2] := ⟨_, rfl, by decide, by decide⟩
+
+/-! ## stopped nodes release their threads (node model M4)
+
+The two dispatch threads are the only threads a running listener owns (the cache thread of
+`NodeListener::new` is joined by the listener call itself). -/
+
+/-- once stopped, both dispatch threads of a started listener reach their end under every schedule:
+all schedules are finite and none is stuck before both are done, so `for_each` returns and a
+`NodeTask` can be joined (`wait`/`drop`) — see `Mio.C09.stopped_node_every_schedule_finite`,
+`stopped_node_no_deadlock` -/
+theorem stopped_node_releases_threads (mode : Mio.Node.Mode) (c : Nat) (n : Mio.Node.St)
+    (h : Mio.Node.Reachable mode c n) (hr : n.running = false) (hst : n.pcN ≠ .notStarted) :
+    Acc Mio.Node.Next n ∧
+    (¬ Mio.Node.Finished n → ∃ a, Mio.Node.ThreadAct a ∧ (Mio.Node.step n a).isSome = true) ∧
+    ∃ acts n', (∀ a ∈ acts, Mio.Node.ThreadAct a) ∧ Mio.Node.run n acts = some n' ∧ Mio.Node.Finished n' :=
+  ⟨Mio.C09.stopped_node_every_schedule_finite mode c n h hr hst,
+   Mio.C09.stopped_node_no_deadlock mode c n h hr hst,
+   by
+     obtain ⟨acts, n', h1, h2, h3, _⟩ := Mio.C09.listener_returns mode c n h hr hst
+     exact ⟨acts, n', h1, h2, h3⟩⟩
 
 end Mio.C18
